@@ -78,12 +78,13 @@ REG.contract(
     note="ASSUMED here (base class): returns the node to write to - the existing private copy with the flags it has, or a new "
          "copy with no flags - and the validated name",
 )
-_WV20 = T.obj("dns.btreezone.WritableVersion", raw=True, delegations=T.obj(DEL),
-              zone=T.obj("contracts.zone._ZoneStub", raw=True, relativize=T.bool, origin=NAME))
+_WV20 = T.obj("dns.btreezone.WritableVersion", raw=True, delegations=T.obj(DEL), origin=NAME,
+              # (the zone's own origin may still be unset while the first version is written: it must not be what is tested)
+              zone=T.obj("contracts.zone._ZoneStub", raw=True, relativize=T.bool, origin=T.opt(NAME)))
 from contracts.name import LAB  # noqa: E402
 
 _ISORIGIN = ("((len(result[1].labels) == 0) if self.zone.relativize else "
-             f"(len(result[1].labels) == len(self.zone.origin.labels) and all({LAB('result[1]', 'm')} == {LAB('self.zone.origin', 'm')} "
+             f"(len(result[1].labels) == len(self.origin.labels) and all({LAB('result[1]', 'm')} == {LAB('self.origin', 'm')} "
              "for m in range(len(result[1].labels)))))")
 REG.contract(
     "dns.btreezone.WritableVersion._maybe_cow_with_name",
